@@ -175,4 +175,7 @@ PROPS["C06"] = dict(
     level_note="Trusted: Lean kernel, factgen, badger, the clock. The outgoing scan model skips keys recorded after `at` up front (the code skips them one by one without touching its state).",
 )
 
+for _p, _g in (("C07", "store-c07"), ("C19", "store-c19"), ("C12", "store-c12")):
+    PROPS[_p] = dict(modules=[], gens=[_g], rule="", level_text="under construction", level_note="under construction")
+
 NOT_YET = {}
